@@ -147,6 +147,8 @@ class FormatChunk(DSFChunk):
         self.channel_type = cdata.uint_le(data[20:24])
         self.channel_num = cdata.uint_le(data[24:28])
         self.sampling_frequency = cdata.uint_le(data[28:32])
+        if self.sampling_frequency == 0:
+            raise error("sampling frequency can't be zero")
         self.bits_per_sample = cdata.uint_le(data[32:36])
         self.sample_count = cdata.ulonglong_le(data[36:44])
 
